@@ -40,8 +40,9 @@ import Pcore.Model.SpanCodec
   non-string hash keys with rich_data=false and a consumer without complex keys) is not modelled: `V.dispOk`.
   Object instances are modelled for the object types of the harness's catalogue (`objTypes`; all attributes of type Any):
   an instance is its type name and the entries of its init hash; construction from the named arguments is assumed to
-  give back an object with that init hash.  Type definitions that travel as Pcore::ObjectType instances are not
-  modelled (the harness runs them on the implementation only).
+  give back an object with that init hash.  An object TYPE no loader knows travels the same way — as an instance of the
+  meta type Pcore::ObjectType whose init hash is the definition (name, parent, attributes …) — and is modelled as such an
+  instance; that the deserializer registers it with the loader (`newTypes`, `AddTypes`) is not modelled.
   Logging is ignored.  Core-only file (linked into the driver).
 -/
 namespace Pcore.Ser
@@ -634,7 +635,7 @@ def lookupLast (name : String) : List (V × V) → Option V
     if k.isKey name && !hasKey name es then some v else lookupLast name es
 
 /-- the object types the loader knows (the harness's catalogue) -/
-def objTypes : List String := ["Verif::Pair", "Verif::Box", "Verif::Unit"]
+def objTypes : List String := ["Verif::Pair", "Verif::Box", "Verif::Unit", "Pcore::ObjectType"]
 def isObjType (tn : String) : Bool := objTypes.contains tn
 
 def kindOfTypeName (tn : String) : Option Kind := Kind.all.find? (fun k => k.typeName == tn)
